@@ -519,8 +519,23 @@ def _calendar_cases(rng, tier):
     return out
 
 
+DEFAULTS = {"cond": None, "project": None, "sort": None, "timeseries": False, "count": False, "start": None, "end": None,
+            "min_energy": None}
+
+
+def _with_omissions(rng, case):
+    """on ~40 % of the request cases the optional arguments whose value IS the documented default (None / False) are left out
+    of the call (each with probability 1/2): the expectation and the model are unchanged, the call relies on the defaults"""
+    if case.get("kind") in ("sessions", "by_time", "count") and rng.random() < 0.4:
+        names = [k for k, v in case["args"].items() if k in DEFAULTS and v is DEFAULTS[k]]
+        omit = [k for k in names if rng.random() < 0.5]
+        if omit:
+            case["omit"] = sorted(omit)
+    return case
+
+
 def generate(rng, n, tier):
-    return _calendar_cases(rng, tier) + [_gen_case(rng) for _ in range(n)]
+    return _calendar_cases(rng, tier) + [_with_omissions(rng, _gen_case(rng)) for _ in range(n)]
 
 
 # ------------------------------------------------------------------ the fake server (shared description)
@@ -729,12 +744,23 @@ def run_impl(case):
            "is_count": case["kind"] == "count" or (case["kind"] == "by_time" and bool(a["count"]))}
     with mock.patch.object(requests, "get", fake_get), mock.patch.object(requests, "head", fake_head):
         try:
-            if case["kind"] == "sessions":
+            # case["omit"]: optional arguments NOT passed (the call relies on the documented defaults, which are the values
+            # the case carries for them); the others are passed by keyword
+            omit = set(case.get("omit") or [])
+            if case["kind"] == "sessions" and not omit:
                 it = client.get_sessions(case["site"], a["cond"], a["project"], a["sort"], a["timeseries"])
-            elif case["kind"] == "by_time":
+            elif case["kind"] == "sessions":
+                it = client.get_sessions(case["site"], **{k: a[k] for k in ("cond", "project", "sort", "timeseries") if k not in omit})
+            elif case["kind"] == "by_time" and not omit:
                 it = client.get_sessions_by_time(case["site"], _mk_dt(a["start"]) if a["start"] else None,
                                                  _mk_dt(a["end"]) if a["end"] else None, a["min_energy"],
                                                  a["timeseries"], a["count"])
+            elif case["kind"] == "by_time":
+                kw = {"start": _mk_dt(a["start"]) if a["start"] else None, "end": _mk_dt(a["end"]) if a["end"] else None,
+                      "min_energy": a["min_energy"], "timeseries": a["timeseries"], "count": a["count"]}
+                it = client.get_sessions_by_time(case["site"], **{k: v for k, v in kw.items() if k not in omit})
+            elif "cond" in omit:
+                it = client.count_sessions(case["site"])
             else:
                 it = client.count_sessions(case["site"], a["cond"])
             if obs["is_count"]:
@@ -1200,6 +1226,8 @@ def features(case, obs):
         out.append(f"timeseries:{a['timeseries']}")
     if a.get("count"):
         out.append("count:True")
+    for k in case.get("omit") or []:
+        out.append(f"omitted:{k}")
     if "pages" in case and not obs["is_count"] and case["site"] in SITES:
         chain = len(obs["gets"])
         out.append(f"requests:{min(chain, 7)}")
